@@ -22,10 +22,18 @@ def state_reply(rnd):
     return bytes(r)
 
 
+_POOL = []
+
+
 def one(rnd):
-    irset = gen_irset(rnd, density=rnd.choice([0.3, 0.9]))
+    # remote objects are REUSED across calls (as an application does): a remote must not remember anything between calls
+    if len(_POOL) < 6 or rnd.random() < 0.1:
+        irs = gen_irset(rnd, density=rnd.choice([0.3, 0.9]))
+        _POOL.append((irs, SwitcherBreezeRemote(irs)))
+        if len(_POOL) > 12:
+            _POOL.pop(0)
+    irset, remote = rnd.choice(_POOL)
     sep = irset["IRSetID"] in ["ELEC7022", "ZM079055", "ZM079065", "ZM079049"]
-    remote = SwitcherBreezeRemote(irset)
     caps = capabilities_spec(irset)
     W = {w["Key"]: w for w in irset["IRWaveList"]}
     pick = lambda xs: rnd.choice([None] + list(xs)) if rnd.random() < 0.7 else None
@@ -94,10 +102,48 @@ def one(rnd):
     return ok, desc, "frames / outcome"
 
 
+def repeat_pair(rnd):
+    """the same request twice on ONE toggle remote while the device reports a different power state the second time:
+    the second command must be rebuilt from the new current state (a remote that remembers its last answer fails)"""
+    irs = gen_irset(rnd, density=1.0, toggle=True, sep=False)
+    remote = SwitcherBreezeRemote(irs)
+    caps = capabilities_spec(irs)
+    W = {w["Key"]: w for w in irs["IRWaveList"]}
+    state = rnd.choice(list(DeviceState))
+    mode = rnd.choice(sorted(caps["modes"], key=lambda m: m.name))
+    fan = rnd.choice(list(ThermostatFanLevel))
+    swing = rnd.choice(list(ThermostatSwing))
+    t = rnd.randrange(caps["min"], caps["max"] + 1) if caps["min"] <= caps["max"] else 20
+    idb, keyb = bytes(3), b"\x00"
+    for cur_on in (1, 0, 1):
+        R2 = bytearray(state_reply(rnd))
+        R2[78] = cur_on
+        R2 = bytes(R2)
+        R1 = bytes(rnd.randrange(256) for _ in range(44))
+        a = n_api.make(2, idb, keyb, [R1, R2, b"ok", b"ok"])
+        k, v = n_api.call(a, "control_breeze_device", [remote, state, mode, t, fan, swing, False], 1700000000)
+        key = spec.ir_key_spec(W, True, caps["min"], caps["max"], state == DeviceState.ON, mode.name, t, fan.name,
+                               swing == ThermostatSwing.ON, True, cur_on == 1)
+        if key is None or key not in W:
+            continue
+        want = spec.breeze_command_frame(R1[8:12], n_api.ts_of(1700000000), idb, spec.command_payload(W[key]["Para"], W[key]["HexCode"]))
+        ws = a._writer.log
+        if len(ws) < 3 or ws[2] != want:
+            return False, dict(state=state.name, mode=mode.name, fan=fan.name, swing=swing.name, t=t, current_on=cur_on, expected_key=key)
+    return True, None
+
+
 def run_case(c):
     k, i = c["kind"], c["inputs"]
     if k == "canary":
         return {"ok": False}
+    if k == "repeats":
+        rnd = random.Random(i["seed"])
+        for n in range(i["n"]):
+            ok, desc = repeat_pair(rnd)
+            if not ok:
+                return {"ok": False, "evaluations": 3 * (n + 1), "detail": "repeated request on one remote object: stale command", "request": desc}
+        return {"ok": True, "evaluations": 3 * i["n"]}
     if k == "sweep":
         rnd = random.Random(i["seed"])
         for n in range(i["n"]):
